@@ -372,7 +372,7 @@ pub fn replay(a: &Args) -> Report {
             rep.violations = tmp.violations.into_iter().filter(|v| v.tag == tag).collect();
             rep.counts = tmp.counts;
         }
-        "c16" | "c18" | "c19" | "tokens" => return crate::tokenlevel::replay(a, &rec),
+        "c16" | "c18" | "c19" | "tokens" | "c13cb" => return crate::tokenlevel::replay(a, &rec),
         "c17" => return crate::cli::replay(a, &rec),
         k => panic!("unknown replay kind {k}"),
     }
